@@ -41,6 +41,13 @@ func checkC16(w *World, tier string) *Report {
 	addSharedClosureStateRule(w, r, "R17.5")
 	addR84(w, r, "R8.4") // recycled frame memory would let one execution overwrite what another still refers to
 	r.Assumptions = append(r.Assumptions, "StateDB, Aspect runtime and crypto are deterministic (external)", "sort.Strings/sort.Ints/slices.Sort and bytes.Compare order whole elements totally")
+	// the host-side helpers that executions of one block share (the BLOCKHASH provider keeps a cache of ancestors across
+	// calls): clones of the reference, so that what one execution reads does not depend on which executions came before
+	w.e1().cloneRule(r, "R16.6", pkCore, func(name string, pr *PairResult) bool {
+		return name == "GetHashFn" || strings.HasPrefix(name, "GetHashFn$") || name == "NewEVMBlockContext" || name == "CanTransfer" || name == "Transfer"
+	})
+	r.need("R16.6", 3)
+	r.Explanation += " R16.6 core.GetHashFn (the BLOCKHASH provider shared by the executions of a block, with its ancestor cache), NewEVMBlockContext, CanTransfer and Transfer are SSA clones of the reference."
 	return r
 }
 
